@@ -340,3 +340,29 @@ Theorem numeric_level_exact_refuted :
 Proof.
   exists [([Some (VStr (s_ "1"))], 0%nat); ([Some (VStr (s_ "True"))], 1%nat)]. split; vm_compute; reflexivity.
 Qed.
+
+(* ------------------------------------------------------------------------------------------------ wave 6 *)
+(* the REJECTED lookup (class of seeded change C08-10): search the path text for "<name>=" anywhere and take the text up to the next '/' *)
+Fixpoint prefix_rest (p s : str) : option str :=
+  match p, s with
+  | [], r => Some r
+  | a :: p', b :: s' => if Ascii.eqb a b then prefix_rest p' s' else None
+  | _ :: _, [] => None
+  end.
+Fixpoint search_after (p s : str) {struct s} : option str :=
+  match prefix_rest p s with
+  | Some r => Some r
+  | None => match s with [] => None | _ :: s' => search_after p s' end
+  end.
+Definition lookup_by_search (cat path : str) : option str :=
+  option_map (fun r => hd [] (split_on c_slash r)) (search_after (cat ++ [c_eq]) path).
+
+(* with partition columns fiscal_year and year the search for "year=" lands inside "fiscal_year=2020": the level the model (and the code)
+   selects BY NAME holds a, the search yields 2020 *)
+Theorem lookup_by_search_refuted :
+  exists path cat v tail,
+    filter (fun p => match p with k0 :: _ => str_eqb k0 cat | [] => false end) (row_partitions true path) = [cat; v] :: tail /\
+    lookup_by_search cat path <> Some v.
+Proof.
+  exists (s_ "fiscal_year=2020/year=a/part.0.parquet"), (s_ "year"), (s_ "a"), []. split; [vm_compute; reflexivity|vm_compute; discriminate].
+Qed.
